@@ -37,8 +37,9 @@ def run_seed(prop_id, verif_seed, index):
 class Streams:
     """Independent named PRNG streams of one run."""
 
-    def __init__(self, seed):
+    def __init__(self, seed, index=0):
         self.seed = seed
+        self.index = index   # position of the run in its batch (systematic enumerations use it)
         self._s = {}
 
     def __getitem__(self, name):
@@ -220,7 +221,7 @@ def _run_chunk(prop, prop_id, verif_seed, tier, lo, hi, want_digests):
     for i in range(lo, hi):
         seed = run_seed(prop_id, verif_seed, i)
         try:
-            case = prop.gen(Streams(seed), tier)
+            case = prop.gen(Streams(seed, i), tier)
             case["seed"] = seed
             case["index"] = i
             out = prop.run(case)
